@@ -2138,4 +2138,38 @@ M("l8-quiet-peek-form", "C09", "quiet", "src/parse.rs",
                 }
                 _ => Err(parser.errors),
             }""", "behaviour-preserving: exhaustion asked with peek inside one match")
+REVERT("revert-parse-arg-const-size", "C09", "fire L10", "b3e4698", "pre-fix tree: parse_arg tests against the unresolved `[T; N]` parameter type")
+REVERT("revert-range-bounds-gate", "C09", "fire L1 L11", "8247efd", "pre-fix tree: range ends never compared with the max of the element type")
+REVERT("revert-range-num-type", "C05", "fire S12", "8247efd", "pre-fix tree: `0..3` as [u8; 3] lowered with 32-bit elements")
+M("l11-untyped-range-unchecked", "C09", "fire L11", "src/check.rs",
+  """                if expected.max().is_some_and(|max| *to > *from && *to - 1 > max) {
+                    let e = TypeErrorEnum::InvalidRange(*from, *to);
+                    return Err(vec![Some(TypeError::new(e, expr.meta))]);
+                }
+                *num_ty = *expected;""",
+  """                *num_ty = *expected;""", "an untyped range takes on the element type without a range check: `253..257` as [u8; 4] wraps")
+M("l1-range-gate-off-by-type", "C09", "fire L1", "src/literal.rs",
+  """                    && num_ty.max().is_none_or(|ty_max| max.saturating_sub(1) <= ty_max)""",
+  """                    && max.saturating_sub(1) <= u64::MAX""", "range gate compares with a constant instead of the element type's max")
+M("l1-quiet-range-gate-match", "C09", "quiet", "src/literal.rs",
+  """                    && num_ty.max().is_none_or(|ty_max| max.saturating_sub(1) <= ty_max)""",
+  """                    && match num_ty.max() {
+                        Some(ty_max) => *max == 0 || *max - 1 <= ty_max,
+                        None => true,
+                    }""", "behaviour-preserving: the same gate written as a match")
+M("l10-set-literal-unresolved", "C09", "fire L10", "src/eval.rs",
+  """            let ty = &self.main_fn.params[self.inputs.len()].ty;
+            let ty = resolve_const_type(ty, self.const_sizes);
+            if literal.is_of_type(self.program, &ty) {""",
+  """            let ty = self.main_fn.params[self.inputs.len()].ty.clone();
+            if literal.is_of_type(self.program, &ty) {""", "set_literal tests against the unresolved parameter type")
+M("s12-quiet-range-width-from-type", "C05", "quiet", "src/compile.rs",
+  """                let elem_bits =
+                    Type::Unsigned(*num_ty).size_in_bits_for_defs(prg, circuit.const_sizes());
+                let mut array = Vec::with_capacity(elem_bits * size);""",
+  """                let _ = num_ty;
+                let (elem_bits, _) = ty
+                    .unwrap_array_size(prg, circuit.const_sizes())
+                    .expect("a range is an array");
+                let mut array = Vec::with_capacity(elem_bits * size);""", "behaviour-preserving: range elements sized by the element type of the expression's own type")
 
